@@ -18,6 +18,10 @@
 (* `forder` (history) is the order in which chunks finished: the final states are  *)
 (* exported, and the harness makes the real pool complete its chunks in exactly    *)
 (* that order before judging what pmap returned (PoolMapTrace.tla).                *)
+(*                                                                                 *)
+(* This module is ONE call.  PoolHist.tla is the machine over calls (histories of   *)
+(* pmap calls in one process); it uses FinalInv - delivered = map(fn, items) when   *)
+(* all chunks are delivered - as the summary of a call.                             *)
 EXTENDS VU, Json
 
 CONSTANTS MaxItems,   \* 0..MaxItems items
